@@ -34,7 +34,7 @@ def pool_values():
         {1.0, f20(ONE + 1900)}, {f20(ONE + 950), 7.0}, {f20(ONE + 500), 5.0}, {f20(ONE + 400), f20(ONE + 600)},
         {"a", "A"}, {"a", "c"},
         {}, {"a": 1}, {"a": 1.0}, {"a": f20(ONE + IN)}, {"a": 1, "b": 2}, {"b": 2, "a": 1}, {1: "x"}, {1: "X."},
-        {"a": [1, 2]}, {(1, 2): 3}, {1: 2},
+        {"a": [1, 2]}, {(1, 2): 3}, {1: 2}, {"A": 1}, {f20(ONE + 500): "x"}, {"a": 1, "B": 2}, {None: 0}, {0: None},
         int, float, str, bool, list, tuple, dict, set, object, Exception, (int, str), (str, list), (float, bool),
     ]
     out = [(ac.spec_of(v), v) for v in vals]
@@ -100,7 +100,7 @@ def enc_str_tok(s):
 
 def request_line(name, a, b, exact=False, delta=None, printed=None, spelling=None):
     """`a ...` request for one assertion call, or None when an operand is outside the wire universe."""
-    d = ac.DEFAULT_DELTA if delta is None else delta
+    d = ac.code_delta(name) if delta is None else delta
     ra, rb = ac.raw(a), ac.raw(b)
     search = "-"
     str_r = "-"
